@@ -31,15 +31,18 @@ Definition run_c12 (c : c12case) : list (N * N * N) :=
 Definition c12_run (cs : list c12case) : list (N * N * N) := flat_map run_c12 cs.
 
 (* the blockstore clauses of C12 on C13's traces: equivocation revealed by the delivered shreds is reported, and a
-   correct leader must not be flagged even when a validated shred carries a flipped (unsigned) data/coding tag *)
+   correct leader must NEVER be flagged - also not when a validated shred carries a flipped (unsigned) data/coding
+   tag: such a shred is refused with InvalidShred, emits nothing and is evidence of nothing (all other clauses
+   are about the remaining, type-consistent shreds) *)
 Open Scope N_scope.
 Definition c12_block_step_ok (slot : N) (ct : content) (hist : list bstep) (st : bstep) : bool :=
   let upto := hist ++ [st] in
   let evs := all_events_b upto in
-  let shs := dissem_shreds upto in
+  let shs := filter tag_ok (dissem_shreds upto) in
   let repaired := existsb (fun s => match bs_op' s with BRepair _ _ _ => true | _ => false end) upto in
   let own := match own_slices upto with [] => false | _ => true end in
-  repaired || own
+  tag_refusal_ok st &&
+  (repaired || own
   || (* two validly signed commitments for one slice (or contradictory last markers) are reported, never silently accepted *)
      (if reveals_equivocation shs then existsb is_invalid_ev evs else false)
   || negb (reveals_equivocation shs) &&
@@ -51,7 +54,7 @@ Definition c12_block_step_ok (slot : N) (ct : content) (hist : list bstep) (st :
        || existsb (fun s => negb (b_slice s =? 0) && match content_of ct (b_root s) with DecOk (Some _) _ => true | _ => false end) shs
        || existsb (fun s => match content_of ct (b_root s) with DecOk (Some p) _ => negb (fst p <? slot) | _ => false end) shs
        || negb (existsb is_invalid_ev evs)
-     end.
+     end).
 Fixpoint run_c12b_steps (slot : N) (ct : content) (hist : list bstep) (k : N) (steps : list bstep) (id : N) : list (N * N * N) :=
   match steps with
   | [] => []
